@@ -26,6 +26,11 @@ IRFLAGS = ['-std=c++11', '-O1', '-fno-vectorize', '-fno-slp-vectorize', '-fno-un
 NATFLAGS = ['-std=c++11', '-O1', '-g', '-fno-access-control', '-fno-omit-frame-pointer', '-D' + GUARD,
             '-Wno-everything']
 SAN = ['-fsanitize=address,undefined', '-fno-sanitize-recover=undefined']
+TSAN = ['-fsanitize=thread']       # replay of data-race counterexamples
+
+
+def sanflags(san):
+    return TSAN if san == 'tsan' else (SAN if san else [])
 
 
 def sh(cmd, **kw):
@@ -151,7 +156,7 @@ def support_module(name, extra=()):
 def native_lib(san=True, jobs=16):
     """static library of the repo sources built from the working tree -> path"""
     ensure_gen()
-    flags = NATFLAGS + (SAN if san else [])
+    flags = NATFLAGS + sanflags(san)
     d = os.path.join(CACHE, 'obj')
     os.makedirs(d, exist_ok=True)
 
@@ -182,7 +187,7 @@ def native_lib(san=True, jobs=16):
 def native_harness(text, san=True, extra_srcs=(), defs=()):
     """compile harness text + vp_native.cpp against the native lib -> executable path"""
     lib = native_lib(san)
-    flags = NATFLAGS + (SAN if san else []) + ['-DVP_NATIVE_FS'] + list(defs)
+    flags = NATFLAGS + sanflags(san) + ['-DVP_NATIVE_FS'] + list(defs)
     key = hashlib.sha256(('\0'.join(flags) + header_digest() + text + lib +
                           open(os.path.join(SUPPORT, 'vp_native.cpp')).read()).encode()).hexdigest()[:24]
     d = os.path.join(CACHE, 'nat')
